@@ -237,6 +237,8 @@ def _gen(rng, tier):
         for top in sorted({mk, (mk + 1) & W1, 0, W1, 1 << 63, mk >> 1}) if n else [None]:
             l = [] if top is None else [rng.getrandbits(64) for _ in range(n - 1)] + [top]
             yield 'from_limbs %d %s' % (bits, ll(l))
+            yield 'arkfrom %d %s' % (bits, ll(l))
+            yield 'arkfromref %d %s' % (bits, ll(l))
             for op in ('ofls', 'fls', 'cfls', 'wfls', 'sfls'):
                 yield '%s %d %s' % (op, bits, ll(l))
                 yield '%s %d %s' % (op, bits, ll(l + [rng.choice([0, 1])]))
@@ -481,6 +483,28 @@ def raw_literal_sites(repo):
     return sites
 
 
+def pod_pairs(repo):
+    """the `(bits, limbs)` list of `impl_pod! { … }` in src/support/bytemuck.rs; None when the anchor is gone"""
+    try:
+        src = re.sub(r'//[^\n]*', '', open(os.path.join(repo, 'src', 'support', 'bytemuck.rs')).read())
+    except OSError:
+        return None
+    m = re.search(r'\bimpl_pod!\s*\{([^}]*)\}', src)
+    if not m:
+        return None
+    return [(int(a), int(b)) for a, b in re.findall(r'\(\s*(\d+)\s*,\s*(\d+)\s*\)', m.group(1))]
+
+
+def pod_impl_sites(repo):
+    n = 0
+    for dp, dn, fn in os.walk(os.path.join(repo, 'src')):
+        for x in fn:
+            if x.endswith('.rs'):
+                src = re.sub(r'//[^\n]*', '', open(os.path.join(dp, x)).read())
+                n += len(re.findall(r'\bimpl\b[^{};]*\b(?:Pod|AnyBitPattern)\s+for\s+(?:Uint|Bits)\b', src))
+    return n
+
+
 def reach_py(edges, start):
     seen = [start]
     k = 0
@@ -589,16 +613,28 @@ def _translate_guard_graph(repo, lean):
         lines.append('  [%s],  -- %d %s' % (', '.join(str(idx[r]) for r in edges.get(n, [])), idx[n], n))
     lines[-1] = lines[-1].replace('],  --', ']   --', 1)
     raw_line = 'def rawLiteralOwners : List Nat := [%s]' % ', '.join(str(idx[n]) for n in raw_known if n in idx)
+    pods = pod_pairs(repo)
     lines += [']', '', '/-- nodes whose body builds a value from the bare struct literal `Self { limbs }` (every one must reach `limbsAssert`) -/',
               raw_line, '', '/-- the public producers (every one must reach `limbsAssert`) -/',
               'def publicProducers : List Nat := [%s]' % ', '.join(str(idx[n]) for n in public), '',
+              '/-- places that build a value from the bare struct literal outside the functions above (must be none: the closure',
+              '    argument knows nothing about them) -/',
+              'def rawLiteralSitesOutside : List String := [%s]' % ', '.join('"%s"' % x for x in raw_unknown), '',
+              '/-- the `(BITS, LIMBS)` pairs for which `src/support/bytemuck.rs` implements `Pod` (any bit pattern is a value):',
+              '    `impl_pod! { … }` as written in the source -/',
+              'def podPairs : List (Nat × Nat) := [%s]' % ', '.join('(%d, %d)' % x for x in (pods or [])), '',
+              '/-- number of `impl … Pod/AnyBitPattern for Uint…` items in src/ (the one inside `impl_pod!`) -/',
+              'def podImplSites : Nat := %d' % pod_impl_sites(repo), '',
               'end Ruint.Gen.GuardGraph', '']
     new = '\n'.join(lines)
     old = open(path).read() if os.path.exists(path) else None
     changed = old != new
     if changed:
         open(path, 'w').write(new)
-    return {'changed': changed and old is not None, 'obligations': ['Ruint.C04.guard_graph_reaches', 'Ruint.C04.raw_literals_guarded'],
+    return {'changed': changed and old is not None,
+            'obligations': ['Ruint.C04.guard_graph_reaches', 'Ruint.C04.raw_literals_guarded', 'Ruint.C04.no_raw_literal_elsewhere',
+                            'Ruint.C04.pod_pairs_aligned', 'Ruint.C04.pod_impl_only_in_macro'],
+            'bytemuck_pod_pairs': ['%d,%d' % x for x in pods] if pods is not None else 'unavailable (impl_pod! list not found)',
             'raw_struct_literal_sites': ['%s: fn %s' % x for x in sites],
             'raw_struct_literal_sites_outside_known_nodes (tie unavailable; full probe set is run)': raw_unknown,
             'guard_graph': {n: edges[n] for n in sorted(edges)},
@@ -651,6 +687,13 @@ def extra_checks(tier, rng, findings):
                     if (item, b, l) not in have:
                         sel.append((item, items[item], b, l))
                         have.add((item, b, l))
+    # bytemuck `Pod` on well-formed widths that do not fill their limbs: reading all-ones bytes must not compile (no `Pod`
+    # impl) — a value here is non-canonical. Probed on two fixed pairs plus every such pair the source's `impl_pod!` lists.
+    pod_pairs_src = pod_pairs(repo) or []
+    pod_probe = [(160, 3), (65, 2)] + ([(1, 1), (127, 2), (255, 4), (520, 9)] if tier != 'quick' else [])
+    pod_probe += [(b, l) for b, l in pod_pairs_src if b != 64 * l and l == (b + 63) // 64 and (b, l) not in pod_probe]
+    POD_EXPR = 'Some(bytemuck::pod_read_unaligned::<T>(&[0xffu8; 8 * L]))'
+    sel += [('bytemuck_pod_read', POD_EXPR, b, l) for b, l in pod_probe] + [('bytemuck_pod_read', POD_EXPR, 128, 2)]
     res, err = probes.run_probes(repo, sel, tag=tier)
     cov = {'compile_probes': {}}
     if res is None:
@@ -663,6 +706,17 @@ def extra_checks(tier, rng, findings):
     for (name, B, L), (outcome, detail, src) in sorted(res.items()):
         table['%s<%d,%d>' % (name, B, L)] = outcome + (': ' + detail if detail and (outcome != 'compile-error' or 'incorrect LIMBS' not in detail) else '')
         case = 'probe %d %d %s' % (B, L, name)
+        if name == 'bytemuck_pod_read':
+            if (B, L) == (128, 2):
+                if outcome != 'value':      # control: the probe itself must work where `Pod` exists
+                    cov.setdefault('probe_control_failures', []).append(case + ' -> ' + outcome + ' ' + detail)
+            elif outcome == 'value':
+                limbs = [int(x) for x in re.findall(r'\d+', detail)]
+                top_ok = (not limbs) or B % 64 == 0 or limbs[-1] < (1 << (B % 64))
+                if not top_ok:
+                    viol.append(('impl-violation', case + ' :: ' + src.replace('\n', ' '), outcome + ' ' + detail,
+                                 'compile-error|canonical value', 'compile-error|canonical value'))
+            continue
         if (B, L) in ill:
             if outcome == 'value':
                 tag = 'c04_bytemuck_zeroed_illformed' if name == 'bytemuck_zeroed' else 'c04_illformed_value_' + name
